@@ -133,7 +133,7 @@ class G2:
             return ("sizeof", self.gtype(2))
         if c < 0.1:
             self.hit("expr:len")
-            return ("len", self.ref(d, 0))
+            return ("len", self.ref(d, r.choice([0, 0, 0, 1, 2])))
         if c < 0.16:
             self.hit("expr:complement")
             return ("un", "BitwiseComplement", self.primary(d))
